@@ -222,6 +222,17 @@ def run_case(case):
         if attrs(M1)[:6] != default_attrs[:6]:
             out.append(('attributes:options-change-lists', default_attrs[:6], attrs(M1)[:6], 'lag/lead options changed the variable lists'))
             break
+    # 3b. building twice from the same symbols gives equal, independent classes (no state shared between builds)
+    Ma, Mb = fsic.build_model(symbols), fsic.build_model(symbols)
+    if attrs(Ma) != attrs(Mb) or Ma.CODE != Mb.CODE:
+        out.append(('second-build-differs', attrs(Ma), attrs(Mb), 'building the same symbol list twice gives different classes'))
+    else:
+        for lst in ('ENDOGENOUS', 'EXOGENOUS', 'PARAMETERS', 'ERRORS', 'NAMES', 'CHECK'):
+            getattr(Ma, lst).append('Zz_probe')
+        if any('Zz_probe' in getattr(Mb, lst) for lst in ('ENDOGENOUS', 'EXOGENOUS', 'PARAMETERS', 'ERRORS', 'NAMES', 'CHECK')):
+            out.append(('builds-share-lists', 'independent classes', 'shared', 'two classes built from the same symbols share a variable list'))
+        if fsic.build_model(symbols).NAMES != default_attrs[4]:
+            out.append(('build-after-mutation-differs', default_attrs[4], fsic.build_model(symbols).NAMES, 'mutating one built class changed later builds'))
     # 4. trivial models solve trivially
     if not symbols:
         M = fsic.build_model([])
